@@ -105,6 +105,11 @@ def run(ctx):
     base = {"B": '{"b1"}', "T": '{"f", "g"}', "CB": '{"c1", "c2"}', "RS": "<- RS_12", "A": "{0, 1}", "Ops": "<- AllOps"}
     behs = life.sim(ctx, base, 150 if q else 3000, 10, "random lifecycles with calls")
     life.replay(ctx, "life", behs, env={"GODEBUG": "clobberfree=1"})
+    # a method VALUE handed to Func (x.M): goom mocks the method by name (mocker.go, names ending in -fm)
+    fmv = {"B": '{"b1"}', "T": '{"f", "g"}', "CB": '{"c1"}', "RS": "<- RS_12", "A": "{1}", "Ops": "<- GenericOps"}
+    fb = life.gen(ctx, fmv, 3 if q else 4, "all histories over method values handed to Func")
+    from lib.replay import replay_family
+    replay_family(ctx, "life-fmvalue", fb, env={"GODEBUG": "clobberfree=1"}, classify=life.classify_fm)
     # what keeps the replacement alive (Keep.tla): builders dropped and collections at TLC-chosen points, 5 handle kinds
     ctx.tlc("Keep", "MC_Keep.cfg", workers=8, timeout=900, constants={"MaxOps": 6 if q else 7}, tag="reachability of replacements: builders dropped, collections")
     kb = ctx.behaviours(ctx.tlc("Keep", "Gen_Keep.cfg", workers=1, timeout=900, constants={"MaxOps": 4 if q else 5}, tag="all histories of Mock/Reset/Drop/GC/Call"))
